@@ -9,17 +9,17 @@ import numpy as np
 import vlib
 from harness.speccommon import *
 
-LEVEL_TEXT = ('Lean 4 theorems about an executable model of Spectrum._ufunc/_interp_common (ufunc_pointwise, scalar_vector_elementwise, unit_handover_partial and operand_inside/outside are structural restatements of the model; the content is operand_is_interpolant — operands equal the independently defined piecewise-linear interpolant / the fill —, grid_spans_union_*, grid_step_le_requested, grid_size_scale_invariant, ufunc_result_valid, ufunc_scale / unit_invariance_unitless and op_comm): the result at every grid point is '
+LEVEL_TEXT = ('Lean 4 theorems about an executable model of Spectrum._ufunc/_interp_common (ufunc_pointwise, scalar_vector_elementwise, unit_handover_partial and operand_inside/outside are structural restatements of the model; the content is operand_is_interpolant — operands equal the independently defined piecewise-linear interpolant / the fill —, grid_spans_union_start, grid_spans_union_end, grid_step_le_requested, grid_size_scale_invariant, ufunc_result_valid, ufunc_scale / unit_invariance_unitless and op_comm): the result at every grid point is '
               'op(S1(g), S2(g)) with Si the linear interpolant inside operand i\'s range and the fill value outside; the grid starts at '
               'the smaller minimum and ends at the larger maximum; add/multiply (any commutative op) are commutative incl. the '
               'left/right sampling swap; scalar/vector operands act element-wise on the unchanged grid; the right operand is used '
               'in the left operand\'s unit. Model tied to the code by differential testing at ℚ.')
-LEVEL_NOTE = ('the scalar grid arithmetic of _interp_common (range, guard, number of intervals, linspace arguments) is regenerated as Gen/InterpGrid.lean and the grid theorems are about it. unit invariance is proved for unitless spectra (`unit_invariance_unitless`: re-expressing both operands and a numeric sampling in any unit rescales the result\'s grid and keeps its values, every operator; `ufunc_scale` is the k>0 core) and the result is a valid spectrum (`ufunc_result_valid`); for density spectra (scope in ASSUMPTIONS) only the '
+LEVEL_NOTE = ('the scalar grid arithmetic of _interp_common (range, guard, number of intervals, linspace arguments), what each _sampling option selects and the wiring of Spectrum._ufunc (element-wise operand kinds, conversion of the right operand on a copy, no write to self, result units from the left operand) are regenerated as Gen/InterpGrid.lean; the model consumes them (bridge lemmas gridNum_eq, commonGrid_eq, samplingOf_eq) and operands_unchanged_structural is about the wiring. unit invariance is proved for unitless spectra (`unit_invariance_unitless`: re-expressing both operands and a numeric sampling in any unit rescales the result\'s grid and keeps its values, every operator; `ufunc_scale` is the k>0 core) and the result is a valid spectrum (`ufunc_result_valid`); for density spectra (scope in ASSUMPTIONS) only the '
               'hand-over step is proved (`unit_handover_partial`) and the clause, like "operands unchanged" and "result is a new object", '
               'is evaluated on the implementation by the oracle in every run (all 4 units, snapshots). Trusted: interp1d(linear), '
               'np.linspace, np.clip.')
 TECHNIQUE = 'Lean 4 proof (unfolding + list lemmas) about a hand model + differential correspondence at ℚ'
-GEN = ['Units', 'InterpGrid']
+GEN = ['Units', 'InterpGrid', 'SpectrumOps']
 OPS = ['C13']
 RULE = ('pairs of dyadic spectra (2..8 samples each; identical / nested / overlapping / touching / disjoint ranges; uniform and '
         'non-uniform grids), operators add/subtract/multiply/divide, sampling min/left/right/float, fill 0/1.5/2, all 16 wavelength-unit '
